@@ -59,6 +59,30 @@ fn flag_of(f: u8) -> squeue::Flags {
     }
 }
 
+pub const ENOSPC: i32 = -28;
+
+/// The same write through the synchronous file API (std shim), as a CQE-style
+/// result: bytes written or a negative errno.
+fn sync_api_write(d: &Direct, path: &str, off: u64, data: &[u8]) -> i32 {
+    use std::os::unix::fs::FileExt;
+    d.entered(|| {
+        let f = match sfs::OpenOptions::new().write(true).open(path) {
+            Ok(f) => f,
+            Err(e) => return -(1000 + e.kind() as i32),
+        };
+        match f.write_at(data, off) {
+            Ok(n) => n as i32,
+            Err(e) => {
+                if e.to_string().contains("No space left") {
+                    ENOSPC
+                } else {
+                    -(1000 + e.kind() as i32)
+                }
+            }
+        }
+    })
+}
+
 fn open_rw(p: &str) -> std::io::Result<sfs::File> {
     sfs::OpenOptions::new().read(true).write(true).open(p)
 }
@@ -121,6 +145,28 @@ pub fn run_direct(s: &Script, st: &mut RStats, san: bool) -> Option<Complaint> {
             fe: crate::ops::Fe::Std,
         });
         m.fs.absorb();
+    }
+    // Twin (capacity configurations): a second file system in the same
+    // configuration to which every effect is applied through the synchronous
+    // std shim at the moment the ring yields it. The ring result must equal
+    // what the sync API returns there (incl. ENOSPC, file unchanged).
+    let mut twin: Option<Direct> = None;
+    if s.cfg.capacity.is_some() {
+        st.inc("capacity_scripts");
+        let t = Direct::new(&s.cfg);
+        let r: std::io::Result<()> = t.entered(|| {
+            for i in 0..s.nfiles {
+                let p = file_path(i);
+                sfs::write(&p, initial_content(i))?;
+                open_rw(&p)?.sync_all()?;
+            }
+            sfs::sync_dir("/")?;
+            Ok(())
+        });
+        if let Err(e) = r {
+            return fail("setup", 0, format!("twin setup failed: {e}"));
+        }
+        twin = Some(t);
     }
     let mut rings: Vec<IoUring> = vec![];
     let mut zombies: Vec<IoUring> = vec![];
@@ -384,6 +430,26 @@ pub fn run_direct(s: &Script, st: &mut RStats, san: bool) -> Option<Complaint> {
                         break 'acts;
                     }
                     st.inc("latency_window_checks");
+                    let mut exp = exp;
+                    if let (Some(t), SqKind::Write { file, off, n, key }) = (&twin, &inf.e.kind) {
+                        let closed_ebadf = exp.undetermined_closed && res == EBADF;
+                        if !inf.cancelled
+                            && inf.fixed.is_none()
+                            && inf.e.fd_gen.is_some()
+                            && !closed_ebadf
+                        {
+                            let sync_res =
+                                sync_api_write(t, &file_path(*file), *off, &payload(*key, *n));
+                            st.inc("twin_write_checks");
+                            if sync_res == ENOSPC {
+                                st.inc("sync_api_enospc");
+                            }
+                            exp.results = vec![sync_res];
+                        }
+                    }
+                    if res == ENOSPC {
+                        st.inc("cqe:enospc");
+                    }
                     if !exp.results.contains(&res) {
                         let class = if inf.cancelled {
                             "cancel-result"
@@ -439,7 +505,13 @@ pub fn run_direct(s: &Script, st: &mut RStats, san: bool) -> Option<Complaint> {
                                 }
                             }
                             SqKind::Write { .. } => st.inc("cqe:write_ok"),
-                            SqKind::Fsync { .. } => st.inc("cqe:fsync_ok"),
+                            SqKind::Fsync { file } => {
+                                st.inc("cqe:fsync_ok");
+                                if let Some(t) = &twin {
+                                    let p = file_path(*file);
+                                    let _ = t.entered(|| open_rw(&p).and_then(|f| f.sync_all()));
+                                }
+                            }
                             SqKind::Cancel { .. } => {}
                         }
                         m.apply_effect(&inf);
@@ -477,6 +549,25 @@ pub fn run_direct(s: &Script, st: &mut RStats, san: bool) -> Option<Complaint> {
                             ),
                         );
                         break 'acts;
+                    }
+                }
+                if let Some(t) = &twin {
+                    for fi in 0..s.nfiles {
+                        let a = real.observe(&file_path(fi));
+                        let b = t.observe(&file_path(fi));
+                        if a != b {
+                            result = fail(
+                                "effect-mismatch",
+                                ai,
+                                format!(
+                                    "{} is {} after the ring operations, {} after the same operations through the sync API",
+                                    file_path(fi),
+                                    a.short(),
+                                    b.short()
+                                ),
+                            );
+                            break 'acts;
+                        }
                     }
                 }
                 st.inc("effect_checks");
@@ -526,14 +617,25 @@ pub fn run_direct(s: &Script, st: &mut RStats, san: bool) -> Option<Complaint> {
             RAct::StdWrite { file, off, n, key } => {
                 let p = file_path(*file);
                 let data = payload(*key, *n);
-                let r = real.entered(|| -> std::io::Result<()> {
-                    use std::os::unix::fs::FileExt;
-                    let f = sfs::OpenOptions::new().write(true).open(&p)?;
-                    f.write_all_at(&data, *off)?;
-                    Ok(())
-                });
-                if let Err(e) = r {
-                    result = fail("setup", ai, format!("std write failed: {e}"));
+                let r = sync_api_write(&real, &p, *off, &data);
+                if let Some(t) = &twin {
+                    let r2 = sync_api_write(t, &p, *off, &data);
+                    if r != r2 {
+                        result = fail(
+                            "effect-mismatch",
+                            ai,
+                            format!("std write returned {r} on the ring-driven fs and {r2} on its sync-API twin"),
+                        );
+                        break 'acts;
+                    }
+                }
+                if r == ENOSPC && s.cfg.capacity.is_some() {
+                    // disk full: no effect
+                    st.inc("std_write_enospc");
+                    continue;
+                }
+                if r != *n as i32 {
+                    result = fail("setup", ai, format!("std write failed: {r}"));
                     break 'acts;
                 }
                 m.fs.v.apply(&crate::ops::Op::WriteAt {
@@ -552,6 +654,9 @@ pub fn run_direct(s: &Script, st: &mut RStats, san: bool) -> Option<Complaint> {
                     m.rings.iter().map(|r| r.inflight.len() as u64).sum(),
                 );
                 real.crash();
+                if let Some(t) = twin.as_mut() {
+                    t.crash();
+                }
                 // the crash is observed: every outstanding buffer may be freed
                 let outstanding: Vec<u64> = bufs.keys().copied().collect();
                 for ud in outstanding {
@@ -930,6 +1035,9 @@ pub fn run(ctx: &Ctx) -> ! {
             "inflight_at_crash",
             "crash_image_checks",
             "retired_buffers_checked",
+            "capacity_scripts",
+            "twin_write_checks",
+            "cqe:enospc",
             "sim_scripts",
             "sim_asyncfd_waits",
             "sim_crashes",
